@@ -77,7 +77,7 @@ def main():
             "quick_cmd": f"./check.sh {pid} quick",
             "thorough_cmd": f"./check.sh {pid} thorough",
             "evidence_file": f"/verif/evidence/{pid}.json",
-            "replay_cmd_template": "cat {path}",
+            "replay_cmd_template": "./bin/verif replay {path}",
             "engine": "bin/verif",
             "level_claimed": {"category": level, "text": text, "design_ref": f"DESIGN.md section 4, {pid}"},
             "level_note": note,
